@@ -10,6 +10,8 @@ the projected heap exactly as the spec action does, a validation step must chang
 """
 import copy
 import json
+import os
+import sys
 import time
 from collections import Counter
 
@@ -343,6 +345,11 @@ def run(pid, tier, replay_file=None):
             seen.add(key)
             uniq.append(s)
     states = uniq
+    # each property only needs the histories whose LAST step it constrains
+    if pid == "C08":
+        states = [s for s in states if not s["hist"] or s["hist"][-1]["op"] == "validate"]
+    elif pid == "C15":
+        states = [s for s in states if not s["hist"] or s["hist"][-1]["x"] in ("D", "F")]
     common.use_repo()
     recs = drive.pmap(replay_history, [(s, init) for s in states], chunksize=16)
 
@@ -422,6 +429,46 @@ def run(pid, tier, replay_file=None):
         sweep_info = dict(documents_swept=n, calls_per_document=2 * len(df.values()[1]),
                           tlc=dict(bfs=dinfo.get("bfs"), seeds=dinfo.get("seed"), sim=dinfo.get("sim")))
 
+    # ---- C08: the repository's own test-suite under the recorder (code -> spec on real usage)
+    suite_info = {}
+    if pid == "C08" and not replay_file:
+        import subprocess
+        import tempfile
+        out = tempfile.NamedTemporaryFile(suffix=".jsonl", delete=False).name
+        env = dict(os.environ, VERIF_REC_OUT=out, PYTHONPATH=os.path.dirname(os.path.abspath(__file__)),
+                   VERIF_REPO=common.REPO)
+        r = subprocess.run([sys.executable, "-m", "pytest", "-q", "-p", "no:cacheprovider", "-p", "verif_recorder",
+                            "--timeout=900", "--continue-on-collection-errors", "tests"],
+                           cwd=common.REPO, env=env, capture_output=True, text=True, timeout=1200)
+        n_ev = 0
+        dummy = {"cls": "Element", "kw": {}, "elems": [], "name": ""}
+        try:
+            for line in open(out):
+                ev = json.loads(line)
+                if "summary" in ev:
+                    suite_info["recorder"] = ev["summary"]
+                    continue
+                n_ev += 1
+                eid = len(index) + 1
+                index[eid] = ("suite", ev)
+                fl = ev["flags"]
+                ftxt = "[" + ", ".join(f"{k} |-> {'TRUE' if fl.get(k, True) else 'FALSE'}" for k in
+                                       ("inputSame", "repeatSame", "snapSame", "reprSame", "jsonSame", "pySame",
+                                        "eqFreshBefore", "eqFreshAfter")) + "]"
+                pre = ev["pre"] if ev["pre"] is not None and ev["post"] is not None else dummy
+                post = ev["post"] if ev["pre"] is not None and ev["post"] is not None else dummy
+                try:
+                    events.append((eid, '[id |-> %d, op |-> "sweep", pre |-> %s, post |-> %s, flags |-> %s]'
+                                   % (eid, tlajson_to_tla(pre), tlajson_to_tla(post), ftxt)))
+                except ValueError:
+                    events.append((eid, '[id |-> %d, op |-> "sweep", pre |-> %s, post |-> %s, flags |-> %s]'
+                                   % (eid, tlajson_to_tla(dummy), tlajson_to_tla(dummy), ftxt)))
+        finally:
+            os.unlink(out)
+        suite_info.update(calls_recorded=n_ev, pytest_tail=r.stdout.strip().splitlines()[-1:] if r.stdout else [])
+        if n_ev < 100:
+            raise MachineryError("test-suite recorder produced too few events: " + (r.stdout[-300:] + r.stderr[-300:]))
+
     # ---- trace validation, several TLC processes at once
     from concurrent.futures import ThreadPoolExecutor
     adj_states = 0
@@ -442,6 +489,13 @@ def run(pid, tier, replay_file=None):
             rejected.update(rej)
             adj_states += n
     for eid, clauses in sorted(rejected.items()):
+        if isinstance(index[eid], tuple) and index[eid][0] == "suite":
+            ev = index[eid][1]
+            for cl in clauses:
+                rep.violation(("C08", cl, "test-suite"),
+                              f"{cl}: call recorded from the repository's test {ev['test'][:120]} on {ev['element'][:100]}",
+                              dict(event={k: v for k, v in ev.items() if k not in ('pre', 'post')}))
+            continue
         if isinstance(index[eid], tuple):
             dst = index[eid][1]
             from checks_doc import _kwsig
@@ -463,7 +517,7 @@ def run(pid, tier, replay_file=None):
     coverage = dict(
         states=sum(m.get("distinct", m.get("states", 0)) for m in tlc_meta) + adj_states,
         transitions=sum(m.get("states", 0) for m in tlc_meta) + len(events),
-        traces_validated_against_impl=len(states) + sweep_info.get("documents_swept", 0),
+        traces_validated_against_impl=len(states) + sweep_info.get("documents_swept", 0) + suite_info.get("calls_recorded", 0),
         evaluations=len(states) + sweep_info.get("documents_swept", 0), distinct_nontrivial=len(states) - 1,
         rule="one case = one history (sequence of reconfiguration steps and validation calls on E, C, D(C)) replayed on fresh real objects; all histories within the bound are distinct and non-trivial except the empty one",
         samples=[dict(history=_h(states[i]["hist"]), last_step_flags=recs[i].get("flags"))
@@ -471,7 +525,7 @@ def run(pid, tier, replay_file=None):
         exhaustive=False, bounds=dict(bfs=TIERS[tier] if not replay_file else None, simulate=SIM[tier]),
         bfs_exhaustive_within_bound=True,
         tlc=tlc_meta, operations=dict(ops), drift=dict(drift), events_validated=len(events),
-        document_family_sweep=sweep_info,
+        document_family_sweep=sweep_info, repository_test_suite_trace=suite_info,
         design_level="TLC checked the action properties PureValidate and ParentIsolated on Lifecycle for every BFS instance")
     return rep.finish(coverage, time.time() - t0,
                       assumptions=["A1 bounded exhaustiveness (heap of three objects, fixed argument sets)",
